@@ -254,14 +254,19 @@ def analyse_unit(unit, res, report, unit_path):
             out["compile_error"] = d["text"]
             continue
         its = [w[1] for w in where if w[0] == "item"]
-        clause = lines[d["primary"] - 1].strip()[:100] if d["primary"] and d["primary"] <= len(lines) else ""
+        clause = re.sub(r"\s*//\s*\[C[^\]]*\]", "", lines[d["primary"] - 1]).strip()[:100] if d["primary"] and d["primary"] <= len(lines) else ""
         if its:
             it = its[0]
             # prefer the item containing the primary span
             for w, l in zip(where, d["lines"]):
                 if w[0] == "item" and l == d["primary"]:
                     it = w[1]
-            out["failures"].append({"unit": unit, "item": it["selector"], "file": it["file"], "props": it["props"], "kind": kind,
+            fprops = it["props"]
+            mt = re.search(r"//\s*\[(C\d+(?:\s*,\s*C\d+)*)\]", lines[d["primary"] - 1]) if d["primary"] and d["primary"] <= len(lines) else None
+            if mt and kind != "pre":
+                # clause-level tag in the side-car: the failing clause carries only these properties
+                fprops = [x.strip() for x in mt.group(1).split(",")]
+            out["failures"].append({"unit": unit, "item": it["selector"], "file": it["file"], "props": fprops, "kind": kind,
                                     "clause": clause, "obligation": "%s.%s.%s[%s]" % (unit, fn_name_of_item(it), kind, clause),
                                     "text": d["text"], "src_lines": it["src_lines"]})
         else:
@@ -376,11 +381,16 @@ def run_property(prop, tier, seed, replay, t0):
                 continue
             ok = res["functions"].get(fn, {}).get("success", True)
             failed_here = any(fn.endswith("::" + fn_name_of_item(it)) for it in [i for i in rep["items"]] if False)
-            obligations += n
-            bad = [f for f in an["failures"] if fn.split("::")[-1] == f["item"].split()[-1]]
-            if ok and not bad:
-                discharged += n
-            fn_rows.append({"unit": u, "function": fn, "obligations": n, "smt_ms": res["functions"].get(fn, {}).get("time_ms", 0), "verified": bool(ok and not bad)})
+            allbad = [f for f in an["failures"] if fn.split("::")[-1] == f["item"].split()[-1]]
+            bad = [f for f in allbad if prop in f["props"]]
+            other = len(allbad) - len(bad)   # failing clauses tagged for other properties only: not this property's obligations
+            n_mine = max(n - other, 0)
+            obligations += n_mine
+            if (ok or allbad) and not bad:
+                discharged += n_mine
+            else:
+                discharged += max(n_mine - max(len(bad), 1), 0)
+            fn_rows.append({"unit": u, "function": fn, "obligations": n_mine, "smt_ms": res["functions"].get(fn, {}).get("time_ms", 0), "verified": bool(not bad and (ok or allbad))})
         for h in scan_trusted(upath, rep):
             trusted.append("%s:%d %s %s" % (u, h["line"], h["name"], h["what"]))
 
